@@ -147,11 +147,10 @@ class World:
         settings = self.setup_settings(path)
         settings['robot_password'] = 'pw_' + ROBOT
         settings['jira_token'] = 'dummy'
-        settings['cmd_line_options'] = list(cfg['cmd_line_options'])
+        settings['cmd_line_options'] = list(cfg['cmd_line_options']) + (['no_octopus'] if cfg['no_octopus'] else [])
         settings['backtrace'] = True
         settings['quiet'] = True
         settings['disable_queues'] = not cfg['use_queue']
-        settings['no_octopus'] = bool(cfg['no_octopus'])
         b = self.BertE(settings)
         return b
 
